@@ -131,7 +131,14 @@ func (w *World) pickConc() int {
 // ------------------------------------------------------------------ C09
 
 func RunC09(r *Run) {
-	w := BuildWorld(r, sourceProfile("C09"))
+	// the source world is a full (fault-free) replica world: publications, manifests and head lists are
+	// produced and consumed all along its history (deliveries and restarts check reload == source, too),
+	// so that repeated publication of a log that changes in between is part of what is reloaded
+	p := e0Profile("C09", "C09")
+	p.NoFaults = true
+	p.Weights[opPublish] = 12
+	p.Weights[opByz], p.Weights[opRefused], p.Weights[opAlgebra], p.Weights[opSpecial] = 0, 0, 0, 0
+	w := BuildWorld(r, p)
 	nscen := 2 + r.Choose("nscen", 3)
 	for s := 0; s < nscen; s++ {
 		r.T.Mark()
@@ -158,6 +165,13 @@ func RunC09(r *Run) {
 		}
 		if len(w.St.Reqs) > 0 {
 			w.St.Reqs = nil
+		}
+		// change some replica between two publications
+		switch r.Choose("between", 3) {
+		case 0:
+			w.doJoinLive()
+		case 1:
+			w.doAppend()
 		}
 	}
 	r.SimNS = w.Now * 1e6
